@@ -55,7 +55,8 @@ def gen_ops(rng, sz, n, writable=True, whences=(0, 0, 0, 1, 1, 2, 2, 3), refused
                 ops.append(['wv', pyenv.rbytes(rng, k).hex(), item])
                 pos += k
             else:
-                ops.append(['r', None])
+                # "all that is left" spelled read(None) or readall() (no random draw: the streams of the older histories stay as they were)
+                ops.append(['r', None] if (len(ops) + pos) % 2 else ['r', -1, 'all'])
                 pos += max(0, sz - pos)
             continue
         if c < 4:
@@ -96,7 +97,11 @@ def gen_ops(rng, sz, n, writable=True, whences=(0, 0, 0, 1, 1, 2, 2, 3), refused
                 pos += len(ops[-1][1]) // 2
             else:
                 ops.append(['r', rng.choice([1, 5, 16, 17])])
-                pos += min(ops[-1][1], max(0, sz - pos))
+                if spellings and (len(ops) + pos) % 3 == 0:
+                    ops[-1] = ['r', -1, 'all']          # readall() where the position may lie beyond the end
+                    pos += max(0, sz - pos)
+                else:
+                    pos += min(ops[-1][1], max(0, sz - pos))
         elif c < 10 and writable:
             k = rng.choice([0, 1, 2, 3, 5, 16, 17, max(0, sz - 1), sz, sz + 2])
             ops.append(['w', pyenv.rbytes(rng, min(k, 64)).hex()])
@@ -137,7 +142,7 @@ class Contract:
         if kind == 'r':
             n = op[1]
             try:
-                r = v.read(n)
+                r = v.readall() if len(op) > 2 and op[2] == 'all' and hasattr(v, 'readall') else v.read(n)
             except Exception as e:
                 if pyenv.errname(e) != self.read_error:
                     self.fail('read-raises', f'read({n}) at {pos} raised {pyenv.errname(e)}', 'bytes', pyenv.errname(e))
